@@ -167,3 +167,40 @@ Arguments kstep {S R} d step st row.
 Arguments kscan {S R} d {O} sstep skip rows st.
 Arguments sfold {S R O} sstep s l.
 Arguments kscan_state {S R} d {O} sstep rows st.
+
+(* ---- dropping rows that are no-ops ----
+   If every dropped row either has a negative code or leaves its group's cell
+   unchanged, then the outputs at the kept rows are exactly the outputs of the
+   scan over the kept rows alone.  This one lemma is "a mask is equivalent to
+   filtering first" and "null-key rows influence nothing" for every scan kernel. *)
+Section ScanFilter.
+Variables (S R O : Type).
+Variable d : S.
+Variable sstep : S -> R -> S * O.
+Variable skip : O.
+Variable keep : Z * R -> bool.
+Hypothesis dropped_noop : forall k r, keep (k, r) = false -> k < 0 \/ forall s, fst (sstep s r) = s.
+
+Theorem kscan_filter rows : forall st,
+  map snd (filter (fun p => keep (fst p)) (combine rows (kscan d sstep skip rows st)))
+  = kscan d sstep skip (filter keep rows) st.
+Proof.
+  induction rows as [|[k r] rest IH]; intros st; simpl; auto.
+  destruct (keep (k, r)) eqn:Ek.
+  - destruct (k <? 0) eqn:E; simpl; rewrite Ek; simpl; rewrite E; simpl; now rewrite IH.
+  - destruct (k <? 0) eqn:E; simpl; rewrite Ek; simpl; [apply IH|].
+    destruct (dropped_noop k r Ek) as [Hk | Hn]; [apply Z.ltb_ge in E; lia|].
+    rewrite Hn.
+    (* writing a cell back unchanged *)
+    assert (Hupd : forall (l : list S) i, upd l i (get d l i) = l).
+    { clear. unfold get. induction l as [|s l IHl]; intros [|i]; simpl; auto. now rewrite IHl. }
+    rewrite Hupd. apply IH.
+Qed.
+End ScanFilter.
+Arguments kscan_filter {S R O} d sstep skip keep _ rows st.
+
+(* rows as the row-aligned kernels see them: (code, (value, selected?)) *)
+Definition mask_list (n : nat) (mask : option (list bool)) : list bool :=
+  match mask with None => repeat true n | Some m => m end.
+Definition mk_rows {A} (gk : list Z) (vals : list A) (mask : option (list bool)) : list (Z * (A * bool)) :=
+  combine gk (combine vals (mask_list (length gk) mask)).
